@@ -355,6 +355,13 @@ fn main() {
                     let raw: Vec<String> = vec![];
                     let mut e = json!({"ev": "eval", "id": ["eval", seed, k], "q": string_to_cps(&q), "doc": sdoc});
                     e["internal"] = json!(internal_events(raw, &am, &by_addr));
+                    // the AST the implementation's parser built, in the specification's encoding (absent when it
+                    // contains something the encoding does not cover: escapes, huge numbers)
+                    if let Ok(Ok(jq)) = guarded(|| jsonpath_rust::parser::parse_json_path(&q)) {
+                        if let Some(a) = verif_harness::ast::segs_json(&jq.segments) {
+                            e["ast"] = a;
+                        }
+                    }
                     match res {
                         Err(p) => { e["outcome"] = json!("panic"); e["detail"] = json!(p); }
                         Ok(Err(_)) => { e["outcome"] = json!("err"); }
